@@ -8,19 +8,30 @@ CASTS = ("CStyleCastExpr", "CXXStaticCastExpr", "CXXFunctionalCastExpr", "CXXCon
          "CXXReinterpretCastExpr", "CXXDynamicCastExpr")
 
 
-def render(P, n, depth=0, nocast=False):
-    """C-like rendering of an expression tree (for messages and structural comparison)"""
+def render(P, n, depth=0, nocast=False, subst=None):
+    """C-like rendering of an expression tree (for messages and structural comparison).
+    subst (a Subst from naming_locals): see through naming locals and single-return local lambdas"""
     if n is None:
         return ""
     if depth > 40:
         return "…"
     k = n.get("k")
     c = n.get("c") or []
-    r = lambda x: render(P, x, depth + 1, nocast)
+    r = lambda x: render(P, x, depth + 1, nocast, subst)
     if nocast and k in CASTS:
         return r(c[0])
     if k == "DeclRefExpr":
+        if subst is not None:
+            if n.get("r") in subst.bind:
+                return subst.bind[n["r"]]
+            if n.get("r") in subst.vals:
+                return r(subst.vals[n["r"]])
         return n.get("n", "?")
+    if subst is not None and k == "CXXOperatorCallExpr":
+        lc = lambda_call(n, subst)
+        if lc is not None:
+            params, body, args = lc
+            return "(" + render(P, body, depth + 1, nocast, subst.with_bind({pk: r(a) for pk, a in zip(params, args)})) + ")"
     if k == "MemberExpr":
         base = c[0] if c else None
         if base is None or (base.get("k") == "CXXThisExpr"):
@@ -98,6 +109,98 @@ def strip_casts(n):
     return n
 
 
+_NAMING_CACHE = {}
+PURE_ACCESSORS = ("operator[]", "at", "front", "back", "begin", "end", "size", "empty", "get_array", "get_surface_point", "get_depth_coordinate",
+                  "get_coordinates", "get_nodes", "data", "first", "second")
+
+
+class Subst:
+    """what a naming local stands for: `vals` const scalars / aliases -> initialiser node; `lams` single-return local lambdas ->
+    (parameter keys, returned expression); `bind` parameter key -> already rendered argument (during a beta reduction)"""
+
+    def __init__(self, vals=None, lams=None, bind=None):
+        self.vals = vals or {}
+        self.lams = lams or {}
+        self.bind = bind or {}
+
+    def with_bind(self, extra):
+        b = dict(self.bind)
+        b.update(extra)
+        return Subst(self.vals, self.lams, b)
+
+
+def naming_locals(P, F):
+    """locals that merely give a name to a value or to a small function: const / constexpr scalars, reference aliases with a
+    side-effect-free initialiser, and local lambdas consisting of one return statement. Introducing or removing such a name
+    changes no behaviour; comparers that opt in see through them."""
+    ck = (id(P), F.key)
+    if ck in _NAMING_CACHE:
+        return _NAMING_CACHE[ck]
+    vals, lams = {}, {}
+    loopvars = set()
+    for n in F.walk():
+        if n.get("k") == "CXXForRangeStmt" and n.get("c") and n["c"][0] is not None:
+            loopvars.add(n["c"][0].get("r"))
+        if n.get("k") == "ForStmt" and n.get("c") and n["c"][0] is not None:
+            for v in F.walk(n["c"][0]):
+                if v.get("k") == "VarDecl":
+                    loopvars.add(v.get("r"))
+    for n in F.walk():
+        if n.get("k") != "VarDecl" or not n.get("c") or n.get("r") in loopvars:
+            continue
+        d = P.d(n["r"])
+        if d.get("storage") not in ("local",):
+            continue
+        init = n["c"][0]
+        i0 = strip_casts(init)
+        while i0 is not None and i0.get("k") in ("ExprWithCleanups", "MaterializeTemporaryExpr", "CXXBindTemporaryExpr", "CXXConstructExpr") and i0.get("c") and len([x for x in i0["c"] if x is not None]) == 1:
+            i0 = strip_casts([x for x in i0["c"] if x is not None][0])
+        if i0 is not None and i0.get("k") == "LambdaExpr":
+            op = P.funcs.get(i0.get("lam"))
+            if op is not None and op.body is not None:
+                st = [x for x in (op.body.get("c") or []) if x is not None] if op.body.get("k") == "CompoundStmt" else [op.body]
+                if len(st) == 1 and st[0].get("k") == "ReturnStmt" and st[0].get("c"):
+                    lams[n["r"]] = (list(op.params), st[0]["c"][0])
+            continue
+        t = n.get("t", "")
+        if not (t.startswith("const ") or d.get("const")):
+            continue
+        bare = t.replace("const ", "").strip()
+        if not (is_arith(bare) or bare.endswith("&") or bare in ("std::size_t", "size_t", "unsigned long", "std::string")):
+            continue
+        pure = True
+        for y in F.walk(init):
+            ky = y.get("k")
+            if ky in ("BinaryOperator", "CompoundAssignOperator") and y.get("op") in ASSIGN_OPS:
+                pure = False
+            elif ky == "UnaryOperator" and y.get("op") in ("++", "--"):
+                pure = False
+            elif ky in ("CXXMemberCallExpr", "CXXOperatorCallExpr") and y.get("callee") and P.d(y["callee"]).get("k") == "CXXMethod" and not P.d(y["callee"]).get("const"):
+                if P.d(y["callee"]).get("n") not in PURE_ACCESSORS:
+                    pure = False
+            elif ky in ("LambdaExpr", "CXXNewExpr", "CXXThrowExpr"):
+                pure = False
+        if pure:
+            vals[n["r"]] = init
+    out = Subst(vals, lams)
+    _NAMING_CACHE[ck] = out
+    return out
+
+
+def lambda_call(n, subst):
+    """(parameter keys, body expression, argument nodes) if n calls a single-return local lambda known to subst"""
+    if subst is None or n.get("k") != "CXXOperatorCallExpr" or n.get("op") != "()" or not n.get("c"):
+        return None
+    callee = strip_casts(n["c"][0])
+    if callee is None or callee.get("k") != "DeclRefExpr" or callee.get("r") not in subst.lams:
+        return None
+    params, body = subst.lams[callee["r"]]
+    args = [a for a in n["c"][1:] if a is None or a.get("k") != "CXXDefaultArgExpr"]
+    if len(args) != len(params):
+        return None
+    return params, body, args
+
+
 class Sym:
     """translate an expression tree to a sympy term.
 
@@ -113,7 +216,10 @@ class Sym:
         "log": sp.log, "std::log": sp.log, "std::min": sp.Min, "std::max": sp.Max, "tanh": sp.tanh, "std::tanh": sp.tanh,
     }
 
-    def __init__(self, P, F, inline_locals=True, env=None, name_only=False, hook=None):
+    def __init__(self, P, F, inline_locals=True, env=None, name_only=False, hook=None, see_through=True, inline_consts=False, keep_aliases=False):
+        self.inline_consts = inline_consts   # also replace const scalar locals by their initialiser when inline_locals is off
+        self.keep_aliases = keep_aliases     # do not look through reference locals
+        self.subst = naming_locals(P, F) if see_through else None   # aliases, named constants, single-return local lambdas
         self.hook = hook             # hook(node) -> sympy term or None (custom abstraction)
         self.P = P
         self.F = F
@@ -184,6 +290,8 @@ class Sym:
             d = P.d(key)
             if d.get("k") == "EnumConstant":
                 return sp.Symbol(d.get("qn", n["n"]))
+            if self.subst is not None and key in self.subst.vals and (self.inline_consts or (P.d(key).get("ref") and not self.keep_aliases)):
+                return rec(self.subst.vals[key])
             if d.get("k") in ("Var", "ParmVar") and d.get("storage") == "local" and self.inline_locals:
                 self._scan()
                 if key in self._inits and not self._assigned.get(key) and not d.get("ref") == "XX":
@@ -253,6 +361,21 @@ class Sym:
             op = n.get("op")
             if op == "[]":
                 return sp.Function("at")(rec(c[0]), rec(c[1]))
+            lc = lambda_call(n, self.subst)
+            if lc is not None:
+                params, body, largs = lc
+                saved = {pk: self.env.get(pk) for pk in params}
+                vals = [rec(a) for a in largs]
+                for pk, v in zip(params, vals):
+                    self.env[pk] = v
+                try:
+                    return rec(body)
+                finally:
+                    for pk, v in saved.items():
+                        if v is None:
+                            self.env.pop(pk, None)
+                        else:
+                            self.env[pk] = v
             args = [rec(x) for x in c]
             if len(args) == 2 and op in ("+", "-", "*", "/"):
                 a, b = args
